@@ -662,8 +662,45 @@ fn exhaustive(alpha: &[&str], maxlen: usize, out: &mut Vec<String>) {
 pub fn run(mode: &str, a: &Args) -> i32 {
     match mode {
         "gen" => generate(a),
+        "deep" => deep_child(),
         _ => { eprintln!("robotics: unknown mode {mode}"); 2 }
     }
+}
+
+/// child process of the deep family: prints `start <name>` before and `case <name> <result>` after every evaluation
+fn deep_child() -> i32 {
+    let h = std::thread::Builder::new().stack_size(8 << 20).spawn(|| {
+        let n = 300_000usize;
+        let cases: Vec<(&str, String)> = vec![
+            ("minus-signs", format!("{}1.5", "-".repeat(n))),
+            ("plus-signs", format!("{}2", "+".repeat(n))),
+            ("mixed-signs", format!("{}3", "-+".repeat(n / 2))),
+            ("spaced-signs", format!("{}4", "- ".repeat(n / 2))),
+            ("sum-chain", format!("1{}", "+1".repeat(n / 2))),
+            ("product-chain", format!("1{}", "*1".repeat(n / 2))),
+            ("sub-div-chain", format!("1{}", "-1/1".repeat(n / 4))),
+            ("signed-terms", format!("1{}", "+-1".repeat(n / 3))),
+            ("open-parens", "(".repeat(n)),
+            ("nested-parens", format!("{}1{}", "(".repeat(n / 2), ")".repeat(n / 2))),
+            ("deg-nest", format!("{}1{}", "deg(".repeat(n / 4), ")".repeat(n / 4))),
+            ("digits", "7".repeat(n)),
+            ("fraction-digits", format!("0.{}", "3".repeat(n))),
+            ("sexagesimal-run", format!("1{}", ":30".repeat(n / 3))),
+            ("underscores", format!("1{}", "_0".repeat(n / 2))),
+            ("blanks", format!("{}1{}", " ".repeat(n / 2), " ".repeat(n / 2))),
+            ("identifier", "p".repeat(n)),
+        ];
+        for (name, text) in &cases {
+            for tag in [0u8, 11, 12] {
+                println!("start {name} tag={tag} len={}", text.len());
+                let r64 = h::eval_expr_f64(text, tag);
+                let r32 = h::eval_f32(text, tag, true);
+                println!("case {name} tag={tag} {} {}", if r64.is_ok() { "ok" } else { "err" }, if r32.is_some() { "ok" } else { "err" });
+            }
+        }
+    }).unwrap();
+    if h.join().is_err() { return 3; }
+    0
 }
 
 fn nontrivial_expr(s: &str) -> bool {
@@ -966,6 +1003,29 @@ fn generate(a: &Args) -> i32 {
                     }
                 }
             }
+        }
+    }
+    // ---- recursion bounded by the depth guard, work linear: very long inputs of every repetitive shape, in a CHILD
+    // process on an 8 MiB-stack thread (a stack overflow aborts the process: observed as an exit status)
+    {
+        let exe = std::env::current_exe().unwrap();
+        let t0 = std::time::Instant::now();
+        let st = std::process::Command::new(exe).args(["robotics", "deep"]).stdout(std::process::Stdio::piped()).stderr(std::process::Stdio::null()).output();
+        sink.count("deep.child_runs");
+        match st {
+            Ok(outp) if outp.status.success() => {
+                let text = String::from_utf8_lossy(&outp.stdout).to_string();
+                for l in text.lines() { if l.starts_with("case ") { sink.count("deep.cases"); } }
+                if t0.elapsed() > std::time::Duration::from_secs(60) {
+                    or.fail("C19-deep-slow", "long repetitive inputs took more than 60 s", "(deep family)", &format!("{:?}", t0.elapsed()), "linear work");
+                }
+            }
+            Ok(outp) => {
+                let text = String::from_utf8_lossy(&outp.stdout).to_string();
+                let last = text.lines().filter(|l| l.starts_with("start ")).last().unwrap_or("start ?").to_string();
+                or.fail("C19-deep-abort", "the evaluator aborted the process (stack exhaustion) or failed on a long repetitive input", &last, &format!("exit status {:?}", outp.status), "a value or an error");
+            }
+            Err(e) => { or.fail("C19-deep-abort", "child process could not be run", "(deep family)", &e.to_string(), "a value or an error"); }
         }
     }
     or.out.flush().unwrap();
